@@ -221,6 +221,33 @@ def check_config(cfg):
     return problems, n, families
 
 
+# -- two configurations in one process (test-case generators must not remember the first) -----------
+HISTORY_CONFIGS = [
+    dict(),
+    dict(luma_offset=16, luma_excursion=219, color_diff_offset=128, color_diff_excursion=224),
+    dict(frame_rate_numer=30000, frame_rate_denom=1001),
+    dict(color_primaries_index=3, color_matrix_index=3, transfer_function_index=3),
+    dict(pixel_aspect_ratio_numer=12, pixel_aspect_ratio_denom=11, top_field_first=False),
+]
+
+
+def history_pairs():
+    n = len(HISTORY_CONFIGS)
+    return [(i, j) for i in range(n) for j in range(n) if i != j]
+
+
+def check_history(i, j):
+    """All decoder test cases for configuration i, then for configuration j (same picture and
+    coding geometry, other video parameters), in one process."""
+    pr, n1, _ = check_config({"extra": HISTORY_CONFIGS[i]})
+    if pr:
+        return ["first configuration %r: %s" % (HISTORY_CONFIGS[i], pr[0])], n1
+    pr, n2, _ = check_config({"extra": HISTORY_CONFIGS[j]})
+    if pr:
+        return ["configuration %r generated after %r in the same process: %s" % (HISTORY_CONFIGS[j], HISTORY_CONFIGS[i], pr[0])], n1 + n2
+    return [], n1 + n2
+
+
 def selected_indices(tier, seed):
     total = n_configs()
     if tier == "thorough":
@@ -235,6 +262,12 @@ def _shard(arg):
     tier, seed, w, n = arg
     t = Tally()
     idx = selected_indices(tier, seed)
+    for hi, hj in history_pairs()[w::n]:
+        pr, nc = check_history(hi, hj)
+        t.count("history_pairs")
+        t.count("test_cases", nc)
+        if pr:
+            t.violation("history: %s" % pr[0], {"history": [hi, hj]})
     for i in (idx + [-(k + 1) for k in range(len(EXTRAS))])[w::n]:
         cfg = config_at(i) if i >= 0 else {"extra": EXTRAS[-i - 1]}
         problems, ncases, fams = check_config(cfg)
@@ -265,11 +298,13 @@ def run(ctx):
         "distinct_nontrivial": total.ndistinct("ok_configs"),
         "rule": "for each selected configuration every generator of DECODER_TEST_CASE_GENERATOR_REGISTRY is run to exhaustion; each test case is serialised, validated, decoded and judged by its family's oracle; non-trivial = distinct configurations all of whose test cases passed",
         "exhaustive": ctx.tier == "thorough",
-        "bounds": {"full_product": n_configs(), "configurations_run": len(idx), "selection": "full product" if ctx.tier == "thorough" else "core (every 176th) + stratum (index = seed mod 141, step 141)", "domains": {k: len(v) for k, v in DOMAINS}, "extra_boundary_configurations": len(EXTRAS)},
+        "bounds": {"full_product": n_configs(), "configurations_run": len(idx), "selection": "full product" if ctx.tier == "thorough" else "core (every 176th) + stratum (index = seed mod 141, step 141)", "domains": {k: len(v) for k, v in DOMAINS}, "extra_boundary_configurations": len(EXTRAS), "two_configuration_histories": "%d ordered pairs of %d configurations that differ only in video parameters outside the picture / coding geometry, all test cases generated for the first and then the second in one process" % (len(history_pairs()), len(HISTORY_CONFIGS))},
     }
     return total, cov
 
 
 def replay_case(case):
+    if "history" in case:
+        return check_history(*case["history"])[0]
     i = case["index"]
     return check_config(config_at(i) if i >= 0 else {"extra": EXTRAS[-i - 1]})[0]
